@@ -110,19 +110,27 @@ class _Collector(logging.Handler):
         self.records: list[logging.LogRecord] = []
 
     def emit(self, record):
-        self.records.append(record)
+        if record.levelno >= logging.WARNING:
+            self.records.append(record)
 
 
 @contextlib.contextmanager
-def capture_logs():
-    """Collects every record emitted below the 'chartparse' logger while active."""
+def capture_logs(debug: bool = False):
+    """Collects every record of level WARNING and above emitted below the 'chartparse' logger while
+    active.  ``debug=True`` additionally makes DEBUG logging effective for the package during the block
+    (what an application does with logging.basicConfig(level=DEBUG)): parsing must not depend on it."""
     lg = logging.getLogger("chartparse")
     h = _Collector()
     lg.addHandler(h)
+    old_level = lg.level
+    if debug:
+        lg.setLevel(logging.DEBUG)
     try:
         yield h.records
     finally:
+        lg.setLevel(old_level)
         lg.removeHandler(h)
+        h.records[:] = [r for r in h.records if r.levelno >= logging.WARNING]
 
 
 def unparsable_texts(records) -> list[str]:
